@@ -102,7 +102,7 @@ def build(ctx):
             N = g.max_size(0, D) + 1
             for a in arms(g, sch):
                 hs.append(P.Harness("%s_%s_%s_cxx%s" % (sch.ns, msg.name, a[0], std), harness(u, g, [a], N, 0, D), [u], unwind=G + 2,
-                                    cap=ctx.q(300, 900), backends=["minisat", "kissat"], extra_flags=["--no-standard-checks"],
+                                    cap=ctx.q(600, 1200), backends=["minisat", "kissat"], extra_flags=["--no-standard-checks"],
                                     meta={"big_loops": ["ref_walk_%s.%d" % (msg.name, x) for x in range(16)]},
                                     desc="%s.%s: %s writes exactly the schema constants (and the numInGroup argument) at the model's member offsets; frame elsewhere; returns the header view" % (sch.ns, msg.name, a[0]),
                                     bounds={"N": N, "G": G, "D": D, "std": "c++" + std, "byte_order": "BE" if sch.be else "LE"}))
